@@ -124,7 +124,7 @@ def rule_a1(repo, res):
     if permitted:
         from . import multidict
         items = multidict.item_attr(repo)
-        si = repo.method(multidict.CONTAINER, "__setitem__")
+        si = repo.full(multidict.CONTAINER, "__setitem__")
         drops_later = False
         for n in ast.walk(si):
             # self.__items[index + 1:] = <list filtered by key>
@@ -223,7 +223,7 @@ def rule_d1(repo, res):
     superclass when their targets differ (bool before the numeric types, datetime before date); every type the
     loader can construct has a branch; numbers are rendered with str(value)."""
     for enc in encoder_classes(repo):
-        c, fn = repo.resolve_method(enc, "encode_simple_value")
+        c, fn = repo.full_resolved(enc, "encode_simple_value")
         if fn is None:
             raise AnalysisError(f"anchor vanished: {enc}.encode_simple_value")
         var = fn.args.args[1].arg
@@ -264,7 +264,7 @@ def rule_d1(repo, res):
                                     f"{c}.encode_simple_value no longer writes numbers with str(value) "
                                     f"(`{norm(rets[0], 50) if rets else 'no return'}`): digits of reals or big integers can be lost",
                                     where=f"pvl/encoder.py:{node.lineno}"))
-        c2, fn2 = repo.resolve_method(enc, "encode_datetype")
+        c2, fn2 = repo.full_resolved(enc, "encode_datetype")
         if fn2 is None:
             raise AnalysisError(f"anchor vanished: {enc}.encode_datetype")
         var2 = fn2.args.args[1].arg
@@ -292,7 +292,7 @@ def rule_d1(repo, res):
                                 f"{c2}.encode_datetype sends {t} values to {targets.get(t)} instead of {callee}",
                                 where=f"pvl/encoder.py:{fn2.lineno}"))
         # encode_datetime = date 'T' time
-        c3, fn3 = repo.resolve_method(enc, "encode_datetime")
+        c3, fn3 = repo.full_resolved(enc, "encode_datetime")
         rets = [r for r in ast.walk(fn3) if isinstance(r, ast.Return)]
         src = " ".join(norm(r.value) for r in rets if r.value is not None)
         calls = {norm(n.func) for n in ast.walk(fn3) if isinstance(n, ast.Call)}
@@ -304,8 +304,8 @@ def rule_d1(repo, res):
                             where=f"pvl/encoder.py:{fn3.lineno}"))
     # encode_value: quantity first, falling back to the simple value on ValueError
     for enc in encoder_classes(repo):
-        c, fn = repo.resolve_method(enc, "encode_value")
-        base_c, base_fn = repo.resolve_method("PVLEncoder", "encode_value")
+        c, fn = repo.full_resolved(enc, "encode_value")
+        base_c, base_fn = repo.full_resolved("PVLEncoder", "encode_value")
         t = [n for n in base_fn.body if isinstance(n, ast.Try)]
         ok = len(t) == 1 and "self.encode_quantity" in norm(t[0].body[0]) and any(
             h.type is not None and norm(h.type) == "ValueError" and "self.encode_simple_value" in norm(h.body[0]) for h in t[0].handlers)
@@ -318,7 +318,7 @@ def rule_d1(repo, res):
 
 # ------------------------------------------------------------------ W1 wrapping
 def decoder_folds_whitespace(repo, dcls):
-    c, fn = repo.resolve_method(dcls, "decode_quoted_string")
+    c, fn = repo.full_resolved(dcls, "decode_quoted_string")
     if fn is None:
         return False
     return any(isinstance(n, ast.Call) and norm(n.func) in ("re.sub", "re.subn") for n in ast.walk(fn))
@@ -330,7 +330,7 @@ def rule_w1(repo, res, which=("quoted", "symbol", "flags")):
     IS_QUOTED only)."""
     from . import lang
     # the wrap call itself
-    fmt_c, fmt = repo.resolve_method("PVLEncoder", "format")
+    fmt_c, fmt = repo.full_resolved("PVLEncoder", "format")
     # textwrap.wrap(...) / textwrap.fill(...) or a textwrap.TextWrapper(...) object: the same keyword options (same defaults)
     WR = ("textwrap.wrap", "textwrap.fill", "textwrap.TextWrapper", "TextWrapper")
     wraps = [n for n in ast.walk(fmt) if isinstance(n, ast.Call) and norm(n.func) in WR]
@@ -371,7 +371,7 @@ def rule_w1(repo, res, which=("quoted", "symbol", "flags")):
                                 where=f"pvl/encoder.py:{wcall.lineno}"))
     for enc in encoder_classes(repo):
         gcls, dcls = lang.encoder_pairing(repo, enc)
-        c, fn = repo.resolve_method(enc, "encode_assignment")
+        c, fn = repo.full_resolved(enc, "encode_assignment")
         # does the text handed to a self.format() call include the encoded value?  (flow-sensitive taint walk; the
         # source is what self.encode_value returns; text derived from it by helpers or concatenation stays tainted)
         from . import flow
@@ -405,7 +405,7 @@ def rule_w1(repo, res, which=("quoted", "symbol", "flags")):
                                     "a set or sequence of quoted strings is not): a line break and indentation can be "
                                     f"inserted inside a quoted string, and {dcls}.decode_quoted_string keeps white space "
                                     "verbatim, so the string is altered on reload", where=f"pvl/encoder.py:{call.lineno}"))
-            if "symbol" in which and repo.resolve_method(enc, "is_symbol")[1] is not None:
+            if "symbol" in which and repo.full_resolved(enc, "is_symbol")[1] is not None:
                 ok = "IS_QUOTED" not in kinds
                 res.oblige("W1-SYMBOL", f"{enc}.encode_assignment ({c}): a single-quoted symbol string cannot reach textwrap", ok=ok)
                 if not ok:
@@ -556,7 +556,7 @@ def rule_c12_structure(repo, res):
                                         "without statement delimiters (ODL, PDS3, ISIS) get them", where=f"pvl/encoder.py:{n.lineno}"))
     res.floor("uses of grammar.delimiters in the encoders", n_delims, 1)
     # block keywords
-    fn = repo.method("PVLEncoder", "encode_aggregation_block")
+    fn = repo.full("PVLEncoder", "encode_aggregation_block")
     src = norm(fn, 8000)
     kv = None
     for n in ast.walk(fn):
@@ -604,7 +604,7 @@ def rule_c12_structure(repo, res):
         res.add(Finding("INDENT", "PVLEncoder.encode_aggregation_block", "levels",
                         "begin/end statements are no longer formatted at the block's level with the body one level deeper",
                         where=f"pvl/encoder.py:{fn.lineno}"))
-    fm = repo.method("PVLEncoder", "encode_module")
+    fm = repo.full("PVLEncoder", "encode_module")
     calls = {norm(n.func): [norm(a) for a in n.args] for n in ast.walk(fm) if isinstance(n, ast.Call) and norm(n.func).startswith("self.encode_")}
     ok = calls.get("self.encode_aggregation_block", [None] * 3)[2:3] == ["level"] and \
         calls.get("self.encode_assignment", [None] * 4)[2:4] == ["level", "longest_key_len"]
@@ -618,7 +618,7 @@ def rule_c12_structure(repo, res):
     if not ok:
         res.add(Finding("INDENT", "PVLEncoder.encode_module", "longest_key_len", "alignment width is no longer the longest non-block key",
                         where=f"pvl/encoder.py:{fm.lineno}"))
-    ff = repo.method("PVLEncoder", "format")
+    ff = repo.full("PVLEncoder", "format")
     pre = [n for n in ast.walk(ff) if isinstance(n, ast.Assign) and norm(n.targets[0]) == "prefix"]
     ok = bool(pre) and norm(pre[0].value).replace(" ", "") in ("level*(self.indent*'')".replace(" ", ""), "level*self.indent*''",
                                                              "self.indent*level*''", "level*(self.indent*' ')".replace(" ", ""))
@@ -635,7 +635,7 @@ def rule_c12_structure(repo, res):
         res.add(Finding("INDENT", "PVLEncoder.format", "returns", "format() no longer returns prefix + s / newline-joined wrapped lines",
                         where=f"pvl/encoder.py:{ff.lineno}"))
     # encode(): END line, sweep
-    fe = repo.method("PVLEncoder", "encode")
+    fe = repo.full("PVLEncoder", "encode")
     # the text is <newline>.join(<lines>); the last of the lines derives from grammar.end_statements[0]
     from . import flow
     ok_end = False
@@ -678,7 +678,7 @@ def rule_c12_structure(repo, res):
         res.add(Finding("SWEEP", "PVLEncoder.encode", "polarity", "the sweep does not raise on `not char_allowed(c)`",
                         where=f"pvl/encoder.py:{fe.lineno}"))
     # ODL: final line end; PDS3: tab replacement
-    fo = repo.method("ODLEncoder", "encode")
+    fo = repo.full("ODLEncoder", "encode")
     rets = [r for r in ast.walk(fo) if isinstance(r, ast.Return)]
     sup = any(isinstance(n, ast.Call) and norm(n.func) == "super().encode" for n in ast.walk(fo))
     ok = sup and bool(rets) and all(norm(r.value).endswith("+ self.newline") for r in rets)
@@ -686,7 +686,7 @@ def rule_c12_structure(repo, res):
     if not ok:
         res.add(Finding("END", "ODLEncoder.encode", "final line end", "ODLEncoder.encode no longer appends the final line end after END",
                         where=f"pvl/encoder.py:{fo.lineno}"))
-    fp = repo.method("PDSLabelEncoder", "encode")
+    fp = repo.full("PDSLabelEncoder", "encode")
     rets = [r for r in fp.body[-1:] if isinstance(r, (ast.If, ast.Return))]
     tabs = [n for n in ast.walk(fp) if isinstance(n, ast.Call) and isinstance(n.func, ast.Attribute) and n.func.attr == "replace"
             and n.args and isinstance(n.args[0], ast.Constant) and n.args[0].value == "\t"]
@@ -697,7 +697,7 @@ def rule_c12_structure(repo, res):
         res.add(Finding("TAB", "PDSLabelEncoder.encode", "tab replacement", "PDSLabelEncoder.encode no longer replaces tab "
                         "characters on its return path: PDS3 labels may not contain tabs", where=f"pvl/encoder.py:{fp.lineno}"))
     # ODL: units only after numbers; key upper-cased; guards dominate emission
-    fv = repo.method("ODLEncoder", "encode_value")
+    fv = repo.full("ODLEncoder", "encode_value")
     # path conditions: some raise is reached exactly under `not isinstance(getattr(value, <quantity>.value_prop), self.numeric_types)`
     def numeric_test(pol):
         return lambda t, p: isinstance(t, ast.Call) and norm(t.func) == "isinstance" and len(t.args) == 2 \
@@ -709,7 +709,7 @@ def rule_c12_structure(repo, res):
     if not ok:
         res.add(Finding("UNITS", "ODLEncoder.encode_value", "numeric test", "ODLEncoder.encode_value no longer restricts units "
                         "expressions to numeric values", where=f"pvl/encoder.py:{fv.lineno}"))
-    fa = repo.method("ODLEncoder", "encode_assignment")
+    fa = repo.full("ODLEncoder", "encode_assignment")
     # taint: the text handed to self.format() derives from <key>.upper() and never from the key as given
     from . import flow
     kparam = fa.args.args[1].arg
@@ -742,9 +742,9 @@ def rule_level_forwarding(repo, res):
             for call in [x for x in ast.walk(fn) if isinstance(x, ast.Call) and isinstance(x.func, ast.Attribute)]:
                 v = call.func.value
                 if isinstance(v, ast.Name) and v.id == "self":
-                    c2, callee = repo.resolve_method(cls, call.func.attr)
+                    c2, callee = repo.full_resolved(cls, call.func.attr)
                 elif isinstance(v, ast.Call) and norm(v.func) == "super":
-                    c2, callee = repo.resolve_method(cls, call.func.attr, after=cls)
+                    c2, callee = repo.full_resolved(cls, call.func.attr, after=cls)
                 else:
                     continue
                 if callee is None:
@@ -780,8 +780,8 @@ def rule_align(repo, res):
             continue
         params = [a.arg for a in fn.args.args]
         ok_param = "key_len" in params
-        from .inline import inlined
-        fn = inlined(repo, cls, fn, module="encoder")           # a thin helper that builds the start of the line is read in place
+        from .inline import inline_all
+        fn = inline_all(repo, cls, fn, module="encoder")           # a thin helper that builds the start of the line is read in place
         lj = [n for n in ast.walk(fn) if isinstance(n, ast.Call) and isinstance(n.func, ast.Attribute) and n.func.attr == "ljust"]
         ok = ok_param and bool(lj) and all(len(n.args) == 1 and norm(n.args[0]) == "key_len" for n in lj)
         # the separator
